@@ -117,8 +117,13 @@ func ruleExtractorErrors(r *Run) {
 			}
 		}
 	}
+	seenJE := map[*ssa.Function]bool{}
 	for _, m := range []string{"walk", "walkObj", "walkArr", "tryMatchRaw"} {
-		fn := p.Method(jsonexprPkg, "extractor", m)
+		fn := jsonexprRole(p, m)
+		if fn != nil && seenJE[fn] {
+			continue // inlined into a function already covered
+		}
+		seenJE[fn] = true
 		if fn == nil {
 			r.Ob("ANCHOR", "jsonexpr.extractor."+m, "anchor resolves").Fail("-", "method not found")
 			continue
@@ -478,6 +483,57 @@ func ruleLabelIdentity(r *Run) {
 	}
 }
 
+// jsonexprRole resolves the parts of the JSON path walker by what they do, when the baseline
+// names are gone (helpers inlined or renamed together):
+//
+//	matchLiteral: the extractor method (string) that calls the extract callback
+//	tryMatchRaw:  the extractor method (*jx.Decoder) error that calls the extract callback
+//	walkArr/Obj:  the function that calls d.Arr / d.Obj with the per-element callback
+func jsonexprRole(p *Program, name string) *ssa.Function {
+	if fn := p.Method(jsonexprPkg, "extractor", name); fn != nil {
+		return fn
+	}
+	walk := p.Method(jsonexprPkg, "extractor", "walk")
+	if walk == nil {
+		return nil
+	}
+	callsExtract := func(f *ssa.Function) bool {
+		for _, c := range callsIn(f) {
+			if fl, _, ok := loadOfField(c.Common().Value); ok && fl == "extract" {
+				return true
+			}
+		}
+		return false
+	}
+	var found []*ssa.Function
+	for _, g := range funcGroup(walk) {
+		if g.Parent() != nil || g.Signature.Recv() == nil {
+			continue
+		}
+		switch name {
+		case "matchLiteral", "tryMatchRaw":
+			if g == walk || !callsExtract(g) || len(g.Params) != 2 {
+				continue
+			}
+			isStr := isStringType(g.Params[1].Type())
+			if (name == "matchLiteral") == isStr {
+				found = append(found, g)
+			}
+		case "walkArr", "walkObj":
+			want := map[string]string{"walkArr": "Arr", "walkObj": "Obj"}[name]
+			for _, c := range callsIn(g) {
+				if callIs(c, jxPath, "(*Decoder)."+want) {
+					found = append(found, g)
+				}
+			}
+		}
+	}
+	if len(found) == 1 {
+		return found[0]
+	}
+	return nil
+}
+
 // ruleJSONLeaves: JSON value kinds -> what is exposed.
 func ruleJSONLeaves(r *Run) {
 	p := r.P
@@ -509,12 +565,24 @@ func ruleJSONLeaves(r *Run) {
 							continue
 						}
 						got := "none"
+						mlRole := jsonexprRole(p, "matchLiteral")
 						for _, c := range e.State.calls {
 							callee := staticCallee(c.Call)
 							if callee == nil {
 								continue
 							}
-							switch cname(callee) {
+							// descents by what they do: a helper of that name, or d.Arr / d.Obj itself
+							switch {
+							case callIs(c.Call, jxPath, "(*Decoder).Arr"):
+								got = "walkArr"
+							case callIs(c.Call, jxPath, "(*Decoder).Obj"):
+								got = "walkObj"
+							}
+							role := cname(callee)
+							if mlRole != nil && callee == mlRole {
+								role = "matchLiteral"
+							}
+							switch role {
 							case "walkArr", "walkObj":
 								got = cname(callee)
 							case "matchLiteral":
@@ -666,18 +734,42 @@ func leafSource(v ssa.Value) string {
 func ruleJSONPathWalk(r *Run) {
 	p := r.P
 	for _, m := range []string{"walkObj", "walkArr"} {
-		fn := p.Method(jsonexprPkg, "extractor", m)
+		fn := jsonexprRole(p, m)
 		o := r.Ob("PV-ORDER", "jsonexpr.(*extractor)."+m, "the current path is extended by the key/index before the element is walked and restored afterwards; raw matches are tried before descending")
 		if fn == nil || len(fn.AnonFuncs) == 0 {
 			o.Fail("-", "method/closure not found")
 			continue
+		}
+		// the descent: d.Arr / d.Obj with the per-element callback
+		var descent ssa.CallInstruction
+		var cbRoot *ssa.Function
+		for _, c := range callsIn(fn) {
+			if callIs(c, jxPath, "(*Decoder)."+map[string]string{"walkArr": "Arr", "walkObj": "Obj"}[m]) {
+				descent = c
+				for _, a := range c.Common().Args {
+					if mc, ok := a.(*ssa.MakeClosure); ok {
+						cbRoot, _ = mc.Fn.(*ssa.Function)
+					}
+				}
+			}
+		}
+		inCallback := func(g *ssa.Function) bool {
+			if cbRoot == nil {
+				return true
+			}
+			for _, x := range funcGroup(cbRoot) {
+				if x == g {
+					return true
+				}
+			}
+			return false
 		}
 		// push / walk / pop may sit in the callback itself or in a helper it calls
 		var cl *ssa.Function
 		var walk ssa.CallInstruction
 		var push, pop *ssa.Store
 		for _, gf := range funcGroup(fn) {
-			if gf == fn {
+			if gf == fn || !inCallback(gf) {
 				continue
 			}
 			var w2 ssa.CallInstruction
@@ -710,6 +802,9 @@ func ruleJSONPathWalk(r *Run) {
 		}
 		if cl == nil {
 			cl = fn.AnonFuncs[0]
+			if cbRoot != nil {
+				cl = cbRoot
+			}
 		}
 		bad := false
 		if walk == nil || push == nil || pop == nil {
@@ -744,6 +839,9 @@ func ruleJSONPathWalk(r *Run) {
 			// n++ once per element
 			incs := 0
 			for _, gf := range funcGroup(fn) {
+				if !inCallback(gf) {
+					continue
+				}
 				allInstrs(gf, func(in ssa.Instruction) {
 					if st, ok := in.(*ssa.Store); ok {
 						if _, ok := st.Addr.(*ssa.FreeVar); ok {
@@ -762,9 +860,13 @@ func ruleJSONPathWalk(r *Run) {
 			}
 		}
 		var raw ssa.CallInstruction
+		rawRole := jsonexprRole(p, "tryMatchRaw")
 		for _, c := range callsIn(fn) {
-			if callIs(c, modPath+"/"+jsonexprPkg, "(*extractor).tryMatchRaw") {
-				raw = c
+			if callIs(c, modPath+"/"+jsonexprPkg, "(*extractor).tryMatchRaw") || (rawRole != nil && staticCallee(c) == rawRole) {
+				// the raw match that belongs to this descent (the same arm of the dispatch)
+				if descent == nil || instrDominates(c, descent) {
+					raw = c
+				}
 			}
 		}
 		if raw == nil {
@@ -777,7 +879,7 @@ func ruleJSONPathWalk(r *Run) {
 	}
 	// matchLiteral / tryMatchRaw: extract only when current equals the path
 	for _, m := range []string{"matchLiteral", "tryMatchRaw"} {
-		fn := p.Method(jsonexprPkg, "extractor", m)
+		fn := jsonexprRole(p, m)
 		o := r.Ob("FE-BOOL", "jsonexpr.(*extractor)."+m, "a value is exposed under a label only if the current path equals that label's path")
 		if fn == nil {
 			o.Fail("-", "method not found")
